@@ -153,11 +153,14 @@ class Conn:
 
 
 def check_event(dbpath):
-    c = sqlite3.connect(dbpath, timeout=2)
+    c = sqlite3.connect(dbpath, timeout=0.5)
     try:
         rows = c.execute("SELECT module, qualname, arg_types, return_type, yield_type, count(*) FROM monkeytype_call_traces "
                          "GROUP BY 1,2,3,4,5").fetchall()
         integ = c.execute("PRAGMA integrity_check").fetchone()[0]
+    except sqlite3.OperationalError as e:
+        # the independent reader could not look (a writer holds the database): no observation at this step
+        return {"ev": "CheckSkipped", "why": str(e)[:60]}
     finally:
         c.close()
     return {"ev": "Check", "rows": [row_abs(*r[:5], cnt=r[5]) for r in rows], "integrity": integ}
@@ -219,13 +222,17 @@ def run_behaviour(sc):
             elif op == "Filter" and alive and not cn.paused:
                 for m, p, n in QUERIES:
                     msg = cn.call("filter", m, p, n)
-                    if msg[0] != "rows":
-                        raise RuntimeError("filter failed: %r" % (msg,))
+                    if msg[0] != "rows":    # the query raised: an observation, not a harness failure
+                        events.append({"ev": "QueryFailed", "c": c, "op": "filter", "err": str(msg[1])[:80]})
+                        break
                     events.append({"ev": "Filter", "c": c, "m": m, "p": [0] if p is None else [ord(ch) for ch in p], "n": n,
                                    "res": [row_abs(*r) for r in msg[1]]})
             elif op == "ListModules" and alive and not cn.paused:
                 msg = cn.call("modules")
-                events.append({"ev": "Modules", "c": c, "res": list(msg[1])})
+                if msg[0] != "mods":
+                    events.append({"ev": "QueryFailed", "c": c, "op": "list_modules", "err": str(msg[1])[:80]})
+                else:
+                    events.append({"ev": "Modules", "c": c, "res": list(msg[1])})
             else:
                 continue
             events.append(check_event(dbpath))
@@ -238,10 +245,16 @@ def run_behaviour(sc):
         events.append(check_event(dbpath))
         fresh = Conn(ctx, dbpath)
         msg = fresh.call("modules")
-        events.append({"ev": "Modules", "c": "fresh", "res": list(msg[1])})
+        if msg[0] != "mods":
+            events.append({"ev": "QueryFailed", "c": "fresh", "op": "list_modules", "err": str(msg[1])[:80]})
+        else:
+            events.append({"ev": "Modules", "c": "fresh", "res": list(msg[1])})
         for m in ("m1", "m2"):
             msg = fresh.call("filter", m, None, 2000)
-            events.append({"ev": "Filter", "c": "fresh", "m": m, "p": [0], "n": 2000, "res": [row_abs(*r) for r in msg[1]]})
+            if msg[0] != "rows":
+                events.append({"ev": "QueryFailed", "c": "fresh", "op": "filter", "err": str(msg[1])[:80]})
+            else:
+                events.append({"ev": "Filter", "c": "fresh", "m": m, "p": [0], "n": 2000, "res": [row_abs(*r) for r in msg[1]]})
         fresh.close()
     finally:
         for cn in conns.values():
